@@ -105,7 +105,8 @@ def _case(draw):
             "service_yaml": {"type": "google.api.Service", "config_version": 3, "name": host,
                              "publishing": {"method_settings": settings}}}
     root_ = M.common_package(api)
-    sub_svc = any(f["package"] != root_ for f, _s, _m in M.all_methods(api))
+    sub_svc = any(f["package"] != root_ for f in api["files"] if not api.get("file_to_generate") or f["name"] in api["file_to_generate"])
+    # (the ads template set's sub-package __init__ lists names without importing them: any proto sub-package is left to C01)
     if t == "grpc" and draw(st.integers(0, 1)) == 0 and not sub_svc:      # (ads + a service in a proto sub-package: finding F-subpackage-services)
         # the alternative (ads) template set has its own client template (sync client only)
         opts["params"] += ["python-gapic-templates=ads-templates", "old-naming"]
